@@ -36,10 +36,18 @@ def cps(s):
 
 
 def is_nonstr(x):
-    return isinstance(x, dict)
+    return isinstance(x, dict) and "nonstr" in x
+
+
+def is_sub(x):
+    """{"sub": characters, "shows": text}: an instance of a str subclass whose __str__ / __format__
+    / __repr__ answer `shows`; the model sees the characters (what is checked is what is sent)"""
+    return isinstance(x, dict) and "sub" in x
 
 
 def ser_obj(x):
+    if is_sub(x):
+        return cps(x["sub"])
     return "N" if is_nonstr(x) else cps(x)
 
 
@@ -155,10 +163,37 @@ def exc_name(e):
 NONSTR_OBJECTS = [200, b"bytes", None, 3.5, ("t",)]
 
 
+class StrSub(str):
+    """a str subclass that formats as something else than its characters"""
+
+    def __new__(cls, content, shows):
+        o = str.__new__(cls, content)
+        o.shows = shows
+        return o
+
+    def __str__(self):
+        return self.shows
+
+    def __format__(self, spec):
+        return self.shows
+
+    def __repr__(self):
+        return repr(self.shows)
+
+
 def real_obj(x):
+    if is_sub(x):
+        return StrSub(x["sub"], x["shows"])
     if is_nonstr(x):
         return NONSTR_OBJECTS[x["nonstr"] % len(NONSTR_OBJECTS)]
     return x
+
+
+def content_obj(x):
+    """the object as the WSGI rules see it: the characters of a str (subclass or not)"""
+    if is_sub(x):
+        return x["sub"]
+    return real_obj(x)
 
 
 class NullLogger:
@@ -1024,6 +1059,14 @@ def hostile_cases(rng, tier):
         specials.append([("X-Ok", "1"), (name, "x")])
     specials += [[("Keep-alive", "kelvin")], [("Connectıon", "dotless")], [("TE\u0000", "x")],
                  [("Te ", "x")], [("Transfer-Encoding:", "x")], [("ſerver", "long s")]]
+    # str subclasses whose __str__ / __format__ differ from their characters (isinstance passes,
+    # the CR/LF checks read the characters, "%s" / f-strings would call the overrides)
+    for shows in ("shown", "x\r\nInjected: 1", "a: b", ""):
+        specials.append([("X-Sub", {"sub": "plain", "shows": shows})])
+        specials.append([({"sub": "X-Name", "shows": shows}, "v")])
+        specials.append([({"sub": "Content-Length", "shows": shows}, {"sub": "4", "shows": "9"})])
+        specials.append([({"sub": "connection", "shows": "X-Ok"}, {"sub": "v", "shows": shows})])
+        specials.append([({"sub": "X-Bad\n", "shows": "X-Good"}, {"sub": "v", "shows": shows})])
     nonstr = [{"nonstr": i} for i in range(len(NONSTR_OBJECTS))]
     for ns in nonstr:
         specials.append([(ns, "v")])
@@ -1040,6 +1083,10 @@ def hostile_cases(rng, tier):
     for ns in nonstr:
         for vtag, call, steps in start_variants(ns, [("X-A", "b")]):
             out.append((("nonstr status", vtag), mk_case(call, steps=steps)))
+    for st in ({"sub": "200 OK", "shows": "200 OK\r\nSet-Cookie: a=b"}, {"sub": "404 Not Found", "shows": "200 OK"},
+               {"sub": "200 OK\r\nX: y", "shows": "200 OK"}, {"sub": "204 No Content", "shows": "200 OK"}):
+        for vtag, call, steps in start_variants(st, [("X-A", "b")]):
+            out.append((("str subclass status", vtag), mk_case(call, steps=steps)))
     for st in ("", " ", "200", "2", "1", "20", "304", "3040 X", "999 Ā", "200 \xff", "abc", "204"):
         for vtag, call, steps in start_variants(st, [("X-A", "b")]):
             out.append((("odd status", st, vtag), mk_case(call, steps=steps)))
@@ -1426,6 +1473,8 @@ def in_oracle_domain(case):
     for a in actions_of(case):
         if a[0] in ("S", "T"):
             for k, v in a[2]:
+                k = k["sub"] if is_sub(k) else k
+                v = v["sub"] if is_sub(v) else v
                 if not is_nonstr(k) and not name_in_oracle_domain(k):
                     return False
                 # int() of CPython accepts every Unicode decimal digit; the model's py_int ASCII digits only
